@@ -118,8 +118,8 @@ def float_affine(chk: Check, n):
         x = rng.integers(0, 40, nc + nt).astype(float)             # integer-valued: x + b is exact
         y = 0.5 * x + rng.normal(0, 3, nc + nt) + np.r_[np.zeros(nc), np.full(nt, 0.7)]
         base = None
-        for b in (0.0, 100.0, 1e6, 1e7, "x1e-7", "x2^20"):
-            xb = x * 1e-7 if b == "x1e-7" else x * 2.0 ** 20 if b == "x2^20" else x + b     # offsets and rescalings
+        for b in (0.0, 100.0, 1e6, 1e7, "x1e-7", "x2^20", "x1e-9", "x-1e-8", "x1e-12"):
+            xb = x * float(b[1:]) if isinstance(b, str) and b != "x2^20" else x * 2.0 ** 20 if b == "x2^20" else x + b     # offsets and rescalings (tiny and negative units too)
             data = pa.table({"variant": [0] * nc + [1] * nt, "y": y, "x": xb})
             try:
                 r = tt.Mean("y", "x", alternative=alt, equal_var=ev, use_t=ut).analyze(data, 0, 1, "variant")
